@@ -204,7 +204,7 @@ func genC15(t *rapid.T) c15Case {
 			// a wide or/and of small groups: the translator's cross product of failure branches, whose order depends
 			// on how the operands print (prefix names, key order)
 			g.maxAtoms = 6
-			body = wideFormula(t, g)
+			body = wideFormulaMin(t, g, rapid.SampledFrom([]int{2, 4}).Draw(t, "wideMin"))
 		} else {
 			body = g.bounded(40)
 		}
